@@ -153,6 +153,8 @@ class SimFS(object):
         self.fault = None
         self.encoding = "utf-8"
         self.tagger = None  # callable() -> (emitter, chain)
+        self._fds = {}
+        self.stat_time = 1.0e9  # what os.stat reports as mtime (set from the simulated clock)
 
     # ---- state helpers (used by the harness, not by the system under test)
     def norm(self, path):
@@ -328,6 +330,143 @@ class SimFS(object):
                                 line_buffering=(buffering == 1))
         text.mode = mode
         return text
+
+    # ---- os-level file API (fake descriptors, rename, remove, listdir, stat)
+    FD_BASE = 1 << 20
+
+    def os_open(self, path, flags, mode=0o777):
+        """os.open for simulated paths: returns a fake descriptor."""
+        p = self.norm(path)
+        acc = flags & (os.O_RDONLY | os.O_WRONLY | os.O_RDWR)
+        writing = acc in (os.O_WRONLY, os.O_RDWR) or bool(flags & (os.O_CREAT | os.O_TRUNC | os.O_APPEND))
+        reading = acc in (os.O_RDONLY, os.O_RDWR)
+        n = self._next_op()
+        self.trace.ev("os.open", p, flags)
+        f = self._fault_due(n, "open_eacces") or (
+            self._fault_due(n, "open_enoent") if (reading and not writing) else None)
+        if f is not None:
+            self.trace.ev("fault", p, f.kind)
+            if f.kind == "open_eacces":
+                raise PermissionError(errno.EACCES, "Permission denied (simulated)", str(path))
+            raise FileNotFoundError(errno.ENOENT, "No such file or directory (simulated)", str(path))
+        if p in self.dirs:
+            raise IsADirectoryError(errno.EISDIR, "Is a directory", str(path))
+        if posixpath.dirname(p) not in self.dirs:
+            raise FileNotFoundError(errno.ENOENT, "No such file or directory", str(path))
+        exists = p in self.files
+        if exists and (flags & os.O_CREAT) and (flags & os.O_EXCL):
+            raise FileExistsError(errno.EEXIST, "File exists", str(path))
+        if not exists and not (flags & os.O_CREAT):
+            raise FileNotFoundError(errno.ENOENT, "No such file or directory", str(path))
+        if writing:
+            self.trace.writes.append(p)
+            self.trace.open_write_unclosed.add(p)
+            if p not in self.trace.emitter and self.tagger is not None:
+                tag, chain = self.tagger()
+                self.trace.emitter[p] = tag
+                self.trace.callers[p] = chain
+            if not exists or (flags & os.O_TRUNC):
+                self.files[p] = bytearray()
+        else:
+            self.trace.reads.append(p)
+        raw = SimRaw(self, p, reading, writing, bool(flags & os.O_APPEND))
+        fd = self.FD_BASE + len(self._fds)
+        self._fds[fd] = raw
+        return fd
+
+    def is_fake_fd(self, fd):
+        return isinstance(fd, int) and fd in self._fds
+
+    def os_fdopen(self, fd, mode="r", buffering=-1, encoding=None, errors=None, newline=None, **kw):
+        raw = self._fds[fd]
+        m = set(mode)
+        raw.mode = mode
+        if "b" in m and buffering == 0:
+            return raw
+        bufsize = io.DEFAULT_BUFFER_SIZE if buffering in (-1, 1) else buffering
+        if raw._reading and raw._writing:
+            buf = io.BufferedRandom(raw, bufsize)
+        elif raw._writing:
+            buf = io.BufferedWriter(raw, bufsize)
+        else:
+            buf = io.BufferedReader(raw, bufsize)
+        if "b" in m:
+            return buf
+        text = io.TextIOWrapper(buf, encoding or self.encoding, errors, newline, line_buffering=(buffering == 1))
+        text.mode = mode
+        return text
+
+    def os_write(self, fd, data):
+        return self._fds[fd].write(data)
+
+    def os_read(self, fd, n):
+        b = bytearray(n)
+        k = self._fds[fd].readinto(b)
+        return bytes(b[:k])
+
+    def os_close(self, fd):
+        self._fds[fd].close()
+
+    def os_rename(self, src, dst):
+        a, b = self.norm(src), self.norm(dst)
+        if a not in self.files:
+            raise FileNotFoundError(errno.ENOENT, "No such file or directory", str(src))
+        if posixpath.dirname(b) not in self.dirs:
+            raise FileNotFoundError(errno.ENOENT, "No such file or directory", str(dst))
+        self._next_op()
+        self.trace.ev("rename", a, b)
+        data = self.files.pop(a)
+        self.files[b] = data
+        # the destination now holds what this run wrote to the source
+        self.trace.written.pop(a, None)
+        self.trace.written[b] = bytes(data)
+        if a in self.trace.emitter:
+            self.trace.emitter.setdefault(b, self.trace.emitter[a])
+            self.trace.callers.setdefault(b, self.trace.callers.get(a, ""))
+        elif self.tagger is not None:
+            tag, chain = self.tagger()
+            self.trace.emitter.setdefault(b, tag)
+            self.trace.callers.setdefault(b, chain)
+
+    def os_remove(self, path):
+        p = self.norm(path)
+        if p not in self.files:
+            raise FileNotFoundError(errno.ENOENT, "No such file or directory", str(path))
+        self._next_op()
+        self.trace.ev("remove", p)
+        del self.files[p]
+        self.trace.written.pop(p, None)
+
+    def os_listdir(self, path="."):
+        p = self.norm(path)
+        if p not in self.dirs:
+            raise FileNotFoundError(errno.ENOENT, "No such file or directory", str(path))
+        pre = p.rstrip("/") + "/"
+        names = set()
+        for q in list(self.files) + list(self.dirs):
+            if q.startswith(pre) and q != p:
+                names.add(q[len(pre):].split("/")[0])
+        self.trace.ev("listdir", p, len(names))
+        return sorted(names)
+
+    def os_makedirs(self, path, mode=0o777, exist_ok=False):
+        p = self.norm(path)
+        if p in self.dirs and not exist_ok:
+            raise FileExistsError(errno.EEXIST, "File exists", str(path))
+        self.mkdir(p)
+
+    def os_stat(self, path):
+        p = self.norm(path)
+        import stat as _stat
+        if p in self.dirs:
+            md, size = _stat.S_IFDIR | 0o755, 4096
+        elif p in self.files:
+            md, size = _stat.S_IFREG | 0o644, len(self.files[p])
+        else:
+            raise FileNotFoundError(errno.ENOENT, "No such file or directory", str(path))
+        self.trace.ev("stat", p, size)
+        t = self.stat_time
+        return os.stat_result((md, 1, 1, 1, 0, 0, size, t, t, t))
 
     def isdir(self, path):
         try:
